@@ -660,6 +660,25 @@ def generate(seed, tier):
             cases.append(case(['cw_global name=CwProbe val=initial',
                                'cw_create type=Host name=%s attrs=%s exp=ok%s' % (hx('inj'), enc(attrs), FT),
                                'cw_delete type=Host name=%s cascade=0' % hx('inj')], 'multiline-key'))
+    # N. restart angle: at the end of a transaction case the package directory is loaded the way a restart loads it
+    #    (every file compiled with package _api, committed and activated together) and must yield exactly the live
+    #    run-time objects.  Always for the aimed families; for the random sequences in the thorough tier.
+    for c in cases:
+        fam = c['tags']['family']
+        aimed = fam.startswith(('dup-', 'cascade-', 'fail-', 'retry-', 'name-part-'))
+        if aimed or (tier != 'quick' and fam.startswith('txn')):
+            # not after a request whose name has extra parts (Service: refused; others: known finding, stray object)
+            if any(l.startswith('cw_create') and bytes.fromhex(dict(t.split('=', 1) for t in l.split()[1:] if '=' in t)['name']).count(b'!') >= 2 + (0 if ' type=Service ' in l else 1) for l in c['lines']):
+                continue
+            # once before the trailing deletes (objects are live), once at the very end
+            i = len(c['lines'])
+            while i > 0 and c['lines'][i - 1].startswith('cw_delete'):
+                i -= 1
+            # (the emulation reloads only the _api package: statically configured objects keep pointing at the OLD instances
+            #  of their run-time parents, so with static objects in the case the reload is only done at the end)
+            if i < len(c['lines']) and not any(l.startswith('cw_static') for l in c['lines']):
+                c['lines'].insert(i, 'cw_restart')
+            c['lines'].append('cw_restart')
     return cases
 
 
@@ -763,6 +782,7 @@ def extra_stats(cases, impl):
             if l.startswith('cw_create'): st['create_ok' if ' res=ok' in l else 'create_fail'] += 1
             elif l.startswith('cw_delete'):
                 st['delete_ok' if ' res=ok' in l else ('delete_nosuch' if 'res=nosuch' in l else 'delete_fail')] += 1
+            elif l.startswith('cw_restart'): st['restart_ok' if ' res=ok missing=0 extra=0 changed=0' in l else 'restart_differs'] = st.get('restart_ok' if ' res=ok missing=0 extra=0 changed=0' in l else 'restart_differs', 0) + 1
             elif l.startswith('cw_rt'): st['roundtrip_err' if l.endswith('ERR') else 'roundtrip_ok'] += 1
             elif l.endswith(' EXC'): st['emit_exc'] += 1
     return st
